@@ -132,6 +132,38 @@ func main() {
 			}
 			e.Strs("breakerExecuteStmts", ss, "CircuitBreaker.Execute: statements")
 		}
+		// cmd/seq-db: how the host lists become topologies - every NewStoresFromString call with its two arguments, and
+		// the statements that compute the hot replica factor
+		if mf, err := r.Load("cmd/seq-db/seq-db.go"); err != nil {
+			e.Missing("seq-db.go", err)
+		} else if fd := mf.Func("", "startProxy"); fd == nil {
+			e.Missing("proxyTopologyCalls", "startProxy not found")
+		} else {
+			var calls, hot []string
+			ast.Inspect(fd.Body, func(n ast.Node) bool {
+				switch x := n.(type) {
+				case *ast.CallExpr:
+					if strings.HasSuffix(mf.Render(x.Fun), "NewStoresFromString") {
+						var as []string
+						for _, a := range x.Args {
+							as = append(as, mf.Render(a))
+						}
+						calls = append(calls, strings.Join(as, ", "))
+					}
+				case *ast.AssignStmt:
+					if len(x.Lhs) == 1 && mf.Render(x.Lhs[0]) == "hotReplicasNum" {
+						hot = append(hot, strings.Join(strings.Fields(mf.Render(x)), " "))
+					}
+				case *ast.IfStmt:
+					if strings.Contains(mf.Render(x.Cond), "flagHotReplicas") {
+						hot = append(hot, "if "+mf.Render(x.Cond))
+					}
+				}
+				return true
+			})
+			e.Strs("proxyTopologyCalls", calls, "startProxy: arguments of every stores.NewStoresFromString call, source order")
+			e.Strs("proxyHotReplicas", hot, "startProxy: how hotReplicasNum is computed")
+		}
 		// storeDocs: order of the tier sends and of the coldWritten assignment
 		if fd := f.Func("SeqDBClient", "storeDocs"); fd == nil {
 			e.Missing("storeDocsOrder", "storeDocs not found")
@@ -218,5 +250,5 @@ func main() {
 			})
 			e.Strs("sendBulkBreakConds", br, "sendBulkToStores: conditions that end the shard loop")
 		}
-	}, "consts/consts.go", "proxy/bulk/seqdb_client.go", "proxy/bulk/write_status.go", "network/circuitbreaker/circuitbreaker.go")
+	}, "consts/consts.go", "proxy/bulk/seqdb_client.go", "proxy/bulk/write_status.go", "network/circuitbreaker/circuitbreaker.go", "cmd/seq-db/seq-db.go")
 }
